@@ -577,11 +577,13 @@ static PROXY_QUEUE * vbi_proxy_queue_force_free( PROXY_DEV * p_proxy_dev )
 
    if ((p_proxy_dev->p_free == NULL) && (p_proxy_dev->p_sliced != NULL))
    {
+      PROXY_QUEUE * p_head = p_proxy_dev->p_sliced;
+
       dprintf(DBG_MSG, "queue_force_free: buffer 0x%lX\n", (long)p_proxy_dev->p_sliced);
 
       for (req = proxy.p_clnts; req != NULL; req = req->p_next)
       {
-         if (req->p_sliced == p_proxy_dev->p_sliced)
+         if (req->p_sliced == p_head)
          {
             vbi_proxy_queue_release_sliced(req);
          }
